@@ -77,6 +77,7 @@ def enumerate_faults(df, roots):
     for fk in FOREIGN_KEYS:
         for i in range(n):
             F.append((f"pointer_to_missing:{fk}", f"row{i}", setval(fk, i, missing_id)))
+            F.append((f"pointer_to_missing_negative:{fk}", f"row{i}", setval(fk, i, -2 if i % 2 else -99)))
             F.append((f"pointer_to_self:{fk}", f"row{i}", setval(fk, i, pids[i])))
     hh_cols = [c for c in df.columns if c.endswith("_hh")]
     multi = df.groupby("hh_id")["p_id"].transform("count").to_numpy() > 1
@@ -313,7 +314,7 @@ def summarize(results, tier, seed):
     for r in co:
         for k, v in r["by_variant"].items():
             byv[k] = byv.get(k, 0) + v
-    want = ["p_id_missing", "p_id_duplicate", "p_id_nan", "pointer_to_missing", "pointer_to_self", "hh_level_varies",
+    want = ["p_id_missing", "p_id_duplicate", "p_id_nan", "pointer_to_missing", "pointer_to_missing_negative", "pointer_to_self", "hh_level_varies",
             "spouses_disagree", "required_column_dropped", "duplicate_column_name", "fractional_in_int_column",
             "non_boolean_in_bool_column", "object_column"]
     inconclusive = [f"fault class {c} never injected" for c in want if not classes.get(c)]
